@@ -9,7 +9,6 @@ import (
 	"fmt"
 	"io"
 	"reflect"
-	"regexp"
 	"slices"
 	"strconv"
 	"strings"
@@ -75,15 +74,31 @@ func isNilClientMsg(msg ClientMsg) bool {
 	return msg == nil || reflect.ValueOf(msg).IsNil()
 }
 
-var clientMsgRegexp = regexp.MustCompile(`^\[\s*"(\w*)"`)
+// clientMsgLabel reads the label of a client msg: the first element of the
+// outer json array. It follows the json grammar, so leading whitespace and
+// escaped characters in the label are understood.
+func clientMsgLabel(b []byte) (label string, ok bool) {
+	dec := json.NewDecoder(bytes.NewReader(b))
+
+	if tok, err := dec.Token(); err != nil || tok != json.Delim('[') {
+		return "", false
+	}
+
+	tok, err := dec.Token()
+	if err != nil {
+		return "", false
+	}
+	label, ok = tok.(string)
+	return
+}
 
 func ParseClientMsg(b []byte) (msg ClientMsg, err error) {
-	match := clientMsgRegexp.FindSubmatch(b)
-	if len(match) == 0 {
+	label, ok := clientMsgLabel(b)
+	if !ok {
 		return nil, errors.New("not a client msg")
 	}
 
-	switch string(match[1]) {
+	switch label {
 	case MsgLabelEvent:
 		var ret ClientEventMsg
 		if err := ret.UnmarshalJSON(b); err != nil {
